@@ -542,6 +542,14 @@ class Sim(object):
         self.reply_builder = None
         self.getaddrinfo_calls = []
         self.wait_log = []        # (t_before, timeout, result, t_after)
+        # what ANOTHER application thread does while the thread running the event loop is blocked inside a
+        # system call: scenario["io_reactions"] = [{"at": [op, n], "do": [actions]}], op in getaddrinfo /
+        # connect / wrap / send / recv / wait, n = ordinal of that call within the attempt
+        self.io_reactions = list(scenario.get("io_reactions", []))
+        self.io_counts = {}
+        self.io_actions = []      # records like Trace.actions
+        self.ws = None
+        self._in_io_reaction = False
 
     # -- deterministic "randomness" ---------------------------------------
     def _derived(self, tag, i, n):
@@ -581,6 +589,35 @@ class Sim(object):
         self.random_i += 1
         self.randoms_issued.append(r)
         return r
+
+    def io_point(self, op):
+        """The loop thread enters the system call ``op``: other application threads may run now."""
+        n = self.io_counts.get(op, 0)
+        self.io_counts[op] = n + 1
+        if not self.io_reactions or self._in_io_reaction or self.ws is None:
+            return
+        for rule in self.io_reactions:
+            if rule["at"][0] != op or rule["at"][1] != n:
+                continue
+            self._in_io_reaction = True
+            actor, self.actor = self.actor, "app"
+            try:
+                for action in rule["do"]:
+                    rec = {"at": [op, n], "action": action, "log_before": len(self.log)}
+                    try:
+                        do_action(self.ws, action, self)
+                        rec["result"] = "ok"
+                    except HarnessSignal:
+                        raise
+                    except Exception as error:
+                        rec["result"] = type(error).__name__
+                        rec["mro"] = [c.__name__ for c in type(error).__mro__]
+                        rec["msg"] = str(error)
+                    rec["log_after"] = len(self.log)
+                    self.io_actions.append(rec)
+            finally:
+                self.actor = actor
+                self._in_io_reaction = False
 
     # -- faults -------------------------------------------------------------
     def fault(self, kind):
@@ -646,7 +683,9 @@ class Sim(object):
         self.attempt_i += 1
         self.addr_cursor = 0
         self.op_counts = {}
+        self.io_counts = {}
         self.waits = 0
+        self.io_point("getaddrinfo")
         self.getaddrinfo_calls.append((host, port))
         self.log.append(("getaddrinfo", -1, (host, port), self.now, self.actor, self.ev_index))
         att = self.attempt()
@@ -690,6 +729,7 @@ class Sim(object):
     @_guard
     def wrap_tls(self, sock, hostname):
         st = sock._st
+        self.io_point("wrap")
         f = self.fault("wrap")
         self.log_op("tls_wrap", st, hostname)
         if f:
@@ -733,6 +773,7 @@ class Sim(object):
     @_guard
     def sock_connect(self, st, sa):
         self.log_op("connect", st, sa)
+        self.io_point("connect")
         how = st.spec.get("connect", "ok")
         if how == "ok":
             st.connected = True
@@ -780,6 +821,7 @@ class Sim(object):
     @_guard
     def sock_recv(self, st, count):
         st.recv_calls += 1
+        self.io_point("recv")
         f = self.fault("recv")
         if st.closed:
             raise OSError(errno.EBADF, "Bad file descriptor")
@@ -901,6 +943,7 @@ class Sim(object):
     @_guard
     def wait_readable(self, sock, timeout):
         st = sock._st
+        self.io_point("wait")
         f = self.fault("wait")
         self.waits += 1
         if self.waits > self.MAX_WAITS:
@@ -1268,6 +1311,7 @@ def run_scenario(scenario, on_event=None):
         try:
             w = ws if ws is not None else make_ws(scenario)
             tr.ws = w
+            sim.ws = w
             _drive(w, scenario, sim, tr, on_event, None,
                    companion if (companion is not None and companion.mode == "interleaved") else None)
         finally:
@@ -1321,6 +1365,7 @@ def _run_chain_body(scenario, count, on_event, sim, traces, companion):
     CURRENT = sim
     try:
         ws = make_ws(scenario)
+        sim.ws = ws
         for k in range(count or len(scenario["attempts"])):
             att = scenario["attempts"][k] if k < len(scenario["attempts"]) else {}
             scn_k = dict(scenario)
